@@ -1,4 +1,4 @@
-import Props.C17b
+import Props.C17f
 #print axioms C17.lightness
 #print axioms C17.black_white
 #print axioms C17.maxmin
@@ -7,3 +7,8 @@ import Props.C17b
 #print axioms C17.saturation_accurate
 #print axioms C17.l_le_max
 #print axioms C17.hue_accurate
+#print axioms C17.hsl_roundtrip
+#print axioms C17.api_hsl_roundtrip
+#print axioms C17.chroma_back
+#print axioms C17.hue_back
+#print axioms C17.dec_sel
